@@ -389,8 +389,10 @@ func oneJob(c Case, gp *generate.Generator, hook *ops.Recorder, enc *encode.Enco
 	sx := float64(c.Rect[2]) / (float64(vb[2]) - float64(vb[0]))
 	sy := float64(c.Rect[3]) / (float64(vb[3]) - float64(vb[1]))
 	T := p.Transform
+	// the paint is sampled at the source point given to Draw plus the pixel's place in the rectangle
+	sp := rr.Calls[len(rr.Calls)-1].SP
 	if err := checkGeometry(c, func(x, y float64) (float64, float64) {
-		px, py := (x-float64(vb[0]))*sx, (y-float64(vb[1]))*sy
+		px, py := (x-float64(vb[0]))*sx+float64(sp.X), (y-float64(vb[1]))*sy+float64(sp.Y)
 		return T[0]*px + T[1]*py + T[2], T[3]*px + T[4]*py + T[5]
 	}, "rendered paint via "+c.Dest); err != nil {
 		return err
@@ -411,8 +413,9 @@ func oneJob(c Case, gp *generate.Generator, hook *ops.Recorder, enc *encode.Enco
 		sx2 := float64(c.Retarget[2]) / (float64(vb[2]) - float64(vb[0]))
 		sy2 := float64(c.Retarget[3]) / (float64(vb[3]) - float64(vb[1]))
 		T2 := p2.Transform
+		sp2 := rr.Calls[len(rr.Calls)-1].SP
 		err := checkGeometry(c, func(x, y float64) (float64, float64) {
-			px, py := (x-float64(vb[0]))*sx2, (y-float64(vb[1]))*sy2
+			px, py := (x-float64(vb[0]))*sx2+float64(sp2.X), (y-float64(vb[1]))*sy2+float64(sp2.Y)
 			return T2[0]*px + T2[1]*py + T2[2], T2[3]*px + T2[4]*py + T2[5]
 		}, "rendered paint after re-targeting the Renderer")
 		zr.SetRasterizer(rr, rect)
